@@ -1,6 +1,6 @@
 """C09 — shared-memory datasets keep their bytes, are protected in use, stay reachable (structural clauses)."""
 from .shm import (r_reader_ids, r_get_pagein, r_pageoutable, r_eviction_flow, r_purge, r_close_callback, r_pageout_transition, r_disk,
-                  r_pageout_callback, r_pagein_callback, r_server_dispatch, r_client_protocol, r_segment_name, r_disk_copy, r_add)
+                  r_pageout_callback, r_pagein_callback, r_server_dispatch, r_client_protocol, r_segment_name, r_disk_copy, r_add, r_client_failures)
 
 META = {
     "explanation": "Static structural analysis of the shm dataset state machine on model stores: get() grants only in_memory datasets; the "
@@ -24,4 +24,6 @@ def r_writer_side(ctx):
 
 
 RULES = [r_get_pagein, r_pageoutable, r_eviction_flow, r_purge, r_close_callback, r_pageout_transition, r_pageout_callback,
-         r_pagein_callback, r_disk, r_reader_ids, r_server_dispatch, r_client_protocol, r_segment_name, r9_memory_lifecycle, r_disk_copy, r_add, r_writer_side]
+         r_pagein_callback, r_disk, r_reader_ids, r_server_dispatch, r_client_protocol, r_segment_name, r9_memory_lifecycle, r_disk_copy, r_add, r_writer_side, r_client_failures]
+from .common import lazy  # noqa: E402
+RULES.append(lazy("C17", "r8_concrete_roundtrip", "the reader id / segment name / size that the store hands out reach the client, and come back in the close message, unchanged"))
